@@ -185,6 +185,9 @@ type c20MW struct {
 	// rebalancer: two servers that the wrapped balancer already knew before they were registered with the rebalancer put in
 	// front of it, and meters that are ready at once (so that the rebalancer really evaluates its servers on every request)
 	PreExisting bool `json:"pre_existing_pool,omitempty"`
+	// intervening breaker: which fallback answers ("" = the default 503, "redirect" = RedirectFallback with PreservePath,
+	// "status" = ResponseFallback with a status and no body)
+	Fallback string `json:"fallback,omitempty"`
 }
 
 type c20Built struct {
@@ -217,7 +220,8 @@ func c20Build(specs []c20MW, inner http.Handler) (http.Handler, error) {
 			if sp.Intervene {
 				_ = rs.Add(time.Hour, 1, 1)
 			} else {
-				_ = rs.Add(time.Second, 100000, 100000)
+				// generous rates over periods from a second down to a millisecond (any period above 0 is legal)
+				_ = rs.Add([]time.Duration{time.Second, 50 * time.Millisecond, 10 * time.Millisecond, time.Millisecond}[i%4], 100000, 100000)
 			}
 			h, err = ratelimit.New(h, hdrExtractor, rs)
 		case "breaker":
@@ -225,7 +229,22 @@ func c20Build(specs []c20MW, inner http.Handler) (http.Handler, error) {
 			if sp.Intervene {
 				cond = "NetworkErrorRatio() > 0.5"
 			}
-			h, err = cbreaker.New(h, cond, cbreaker.FallbackDuration(time.Hour), cbreaker.CheckPeriod(0))
+			bopts := []cbreaker.Option{cbreaker.FallbackDuration(time.Hour), cbreaker.CheckPeriod(0)}
+			switch sp.Fallback {
+			case "redirect":
+				fb, e := cbreaker.NewRedirectFallback(cbreaker.Redirect{URL: "http://fallback.test/base", PreservePath: true})
+				if e != nil {
+					return nil, e
+				}
+				bopts = append(bopts, cbreaker.Fallback(fb))
+			case "status":
+				fb, e := cbreaker.NewResponseFallback(cbreaker.Response{StatusCode: http.StatusTooManyRequests})
+				if e != nil {
+					return nil, e
+				}
+				bopts = append(bopts, cbreaker.Fallback(fb))
+			}
+			h, err = cbreaker.New(h, cond, bopts...)
 		case "roundrobin", "rebalancer":
 			var opts []roundrobin.LBOption
 			if sp.Sticky && sp.Kind == "roundrobin" {
@@ -316,6 +335,9 @@ func c20Stacks(c *Ctx) {
 			if len(cands) > 0 {
 				iv = pick(r, cands)
 				specs[iv].Intervene = true
+				if specs[iv].Kind == "breaker" {
+					specs[iv].Fallback = pick(r, []string{"", "", "redirect", "status"})
+				}
 				mode = "intervening:" + specs[iv].Kind
 			}
 		}
@@ -497,6 +519,12 @@ func c20Stacks(c *Ctx) {
 			n := inner.invoked["test"]
 			inner.mu.Unlock()
 			want := c20Docs[specs[iv].Kind]
+			switch specs[iv].Fallback {
+			case "redirect":
+				want = http.StatusFound
+			case "status":
+				want = http.StatusTooManyRequests
+			}
 			if n != 0 {
 				c.Violation("intervene/handler-invoked", sfmt("%s: the wrapped handler was invoked %d times although %s intervened (status %d)", mode, n, specs[iv].Kind, resp.StatusCode), desc)
 				return
@@ -504,6 +532,22 @@ func c20Stacks(c *Ctx) {
 			if resp.StatusCode != want {
 				c.Violation("intervene/status", sfmt("%s at position %d of %d: client saw status %d, documented status is %d (body %q)", mode, iv, depth, resp.StatusCode, want, string(rb[:min(len(rb), 60)])), desc)
 				return
+			}
+			if specs[iv].Fallback == "redirect" {
+				// every refused request is redirected to the same, configured place
+				loc := resp.Header.Get("Location")
+				for q := 0; q < 3; q++ {
+					r2, _, err2 := do(sfmt("again%d", q), "", nil, nil)
+					if err2 != nil || r2.StatusCode != http.StatusFound || r2.Header.Get("Location") != loc || !strings.HasPrefix(loc, "http://fallback.test/base") {
+						got := ""
+						if r2 != nil {
+							got = sfmt("%d %q", r2.StatusCode, r2.Header.Get("Location"))
+						}
+						c.Violation("intervene/redirect-target", sfmt("%s with a redirect fallback (URL http://fallback.test/base, path preserved): the first refused request was sent to %q, refused request %d got %s (err %v)", mode, loc, q+2, got, err2), desc)
+						return
+					}
+				}
+				c.Count("redirect_fallback_checked", 1)
 			}
 			c.Count("intervening_"+specs[iv].Kind, 1)
 			c.Nontrivial(sfmt("%v|%v", specs, mode))
